@@ -494,13 +494,13 @@ theorem eval_env_of_frame (script nk : Bytes) (rest : List Bytes) (n : Nat)
     ∃ c, parseCmd (s2b "EVAL" :: script :: nk :: rest) = .ok c ∧
       envOfEval c = some ⟨(rest.take n).map lossy, rest.drop n⟩ := by
   have hf : findEntry table (kw (s2b "EVAL")) = some (.cmd (customSpec "EVAL" (.atLeast 2) (reqAtLeast "EVAL" 2)
-      (CB.plain (Bodies.eval (s2b "Eval") .evalKeys)))) := by rfl
+      (CB.eval (s2b "Eval") .evalKeys))) := by rfl
   rw [parse_of_find hf]
   have hnn : ¬ ((n : Int) < 0) := by omega
   have hlt : ¬ (rest.length < n) := by omega
   refine ⟨⟨s2b "Eval", [.s (lossy script), .len ((rest.take n).map (fun a => Tok.s (lossy a))).length] ++
       (rest.take n).map (fun a => Tok.s (lossy a)) ++ [.len ((rest.drop n).map Tok.d).length] ++ (rest.drop n).map Tok.d⟩, ?_, ?_⟩
-  · simp only [customSpec, Spec.run, Arity.ok, List.length_cons, Body.run, CB.plain, CustomBody.plain, Bodies.eval,
+  · simp only [customSpec, Spec.run, Arity.ok, List.length_cons, Body.run, CB.eval, CustomBody.plain, Bodies.eval,
       aInt, Arg.extract, hn, bind, Except.bind, hnn, if_false, Int.toNat_natCast, hlt]
     have : decide (2 ≤ rest.length + 1 + 1) = true := by simp
     simp only [this, if_true]
